@@ -40,12 +40,14 @@ type params struct {
 	Overrides bool    `json:"overrides"`
 	Churn     bool    `json:"churn"`
 	Outbound  bool    `json:"outbound"`
+	Redeploy  string  `json:"redeploy,omitempty"` // "" | early | mid | both: bridge redeployments (redeploy.go)
 }
 
 type event struct {
 	Chain    string
 	Nonce    uint64
 	Kind     string // deposit | batch
+	Compass  string // unique id of the bridge deployment that emitted the event
 	ERC20    string
 	Denom    string
 	Amount   sdkmath.Int
@@ -86,6 +88,7 @@ type mon struct {
 	retAt    map[string]int    // chain -> block index at which the cursor is put back
 	retTo    map[string]uint64 // chain -> value
 	blockNo  int
+	rd       *redeployer // nil in histories without bridge redeployments
 }
 
 func (m *mon) vio(sig, msg string, wit any) { m.rec.Violation(sig, msg, wit) }
@@ -149,7 +152,7 @@ func (m *mon) userBalances() map[string]sdkmath.Int {
 }
 
 func (m *mon) claimFor(v *chain.Account, ev *event, alt bool) sdk.Msg {
-	compass := m.w.Compass[ev.Chain]
+	compass := ev.Compass
 	// every second altered claim differs from the real event only in the SPELLING of an address (letter case): it is a
 	// different claim (another receiver string that does not decode, another contract string) that a lenient
 	// comparison might pool with the honest one
@@ -253,6 +256,12 @@ func run(c fw.Case, tier string, rec *fw.Recorder) {
 		}
 	}
 	rec.Sample(map[string]any{"params": p})
+	if p.Redeploy != "" {
+		m.rd = newRedeployer(m, c.Seed)
+		if p.Redeploy == "early" || p.Redeploy == "both" {
+			m.rd.early()
+		}
+	}
 	for b := 0; b < p.Blocks && !m.stopped; b++ {
 		if b%400 == 10 {
 			w.KeepAlive()
@@ -272,6 +281,9 @@ func run(c fw.Case, tier string, rec *fw.Recorder) {
 		}
 		if p.Churn && r.Intn(50) == 0 {
 			m.jailSomeone()
+		}
+		if m.rd != nil {
+			m.rd.after(b)
 		}
 	}
 }
@@ -348,11 +360,15 @@ func (m *mon) jailSomeone() {
 }
 
 func (m *mon) emitEvent() {
+	m.emitEventOn(m.w.Chains[m.r.Intn(len(m.w.Chains))])
+}
+
+// emitEventOn: the bridge deployment in force on ch emits its next event.
+func (m *mon) emitEventOn(ch string) {
 	w, r := m.w, m.r
-	ch := w.Chains[r.Intn(len(w.Chains))]
 	m.maxEv[ch]++
 	m.ethH += uint64(1 + r.Intn(4))
-	ev := &event{Chain: ch, Nonce: m.maxEv[ch], Kind: "deposit", EthH: m.ethH}
+	ev := &event{Chain: ch, Nonce: m.maxEv[ch], Kind: "deposit", EthH: m.ethH, Compass: w.Compass[ch]}
 	var toks []world.Token
 	for _, t := range w.Tokens {
 		if t.ChainRef == ch {
@@ -414,6 +430,16 @@ func (m *mon) block(valsBusy bool) {
 	// pigeons: each validator looks up its own cursor on chain (what pigeon does) and votes for the next event
 	if !valsBusy {
 		for _, v := range w.Vals {
+			if m.rd != nil {
+				if m.rd.hold[v.Bech] {
+					continue // pigeon down
+				}
+				if s, ok := m.rd.stragglerVote(v); ok {
+					used[v.Bech] = true
+					sents = append(sents, s)
+					continue
+				}
+			}
 			if m.lazy[v.Bech] && r.Intn(4) != 0 {
 				continue
 			}
@@ -513,6 +539,9 @@ func (m *mon) block(valsBusy bool) {
 			if s.alt {
 				m.rec.Count("claims_accepted_altered", 1)
 			}
+			if s.kind == "claim-old" {
+				m.rec.Count("old_deployment_votes_accepted_after_redeployment", 1)
+			}
 			if !s.bond {
 				m.vio("vote-from-unbonded", fmt.Sprintf("claim by %s accepted although the validator was not bonded", s.v.Name), map[string]any{"height": c.Height, "val": s.v.ValBech()})
 			}
@@ -559,6 +588,10 @@ func (m *mon) block(valsBusy bool) {
 		sort.Slice(obs, func(i, j int) bool { return obs[i].Nonce < obs[j].Nonce })
 		for i, a := range obs {
 			m.rec.Count("attestations_observed", 1)
+			// (0) bridge deployment: nothing of a superseded deployment takes effect
+			if m.rd != nil {
+				m.rd.observed(ch, a, wit)
+			}
 			// (1) power of DISTINCT voters > 66% of total
 			sum := int64(0)
 			seen := map[string]bool{}
@@ -720,6 +753,18 @@ func cases(tier string, seed int64) []fw.Case {
 			Overrides: i%3 != 2, Churn: i%2 == 1, Outbound: i%4 == 2}
 		cs = append(cs, fw.MkCase(fmt.Sprintf("hist-%03d", i), seed*104729+int64(i), p))
 	}
+	// histories with bridge redeployments (redeploy.go); shorter, the interesting part is around the hand-overs
+	nr, rblocks := 24, 200
+	if tier == "thorough" {
+		nr, rblocks = 60, 360
+	}
+	for i := 0; i < nr; i++ {
+		d := dists[(i*5+3)%len(dists)]
+		kind := []string{"both", "early", "mid"}[i%3]
+		p := params{Stakes: d.stakes, Byz: d.byz, Lazy: d.lazy, NUsers: 3, NChains: 1 + (i/3)%2, Blocks: rblocks,
+			Overrides: i%4 == 1, Churn: i%5 == 2, Outbound: i%8 == 7, Redeploy: kind}
+		cs = append(cs, fw.MkCase(fmt.Sprintf("redeploy-%03d", i), seed*104729+1000+int64(i), p))
+	}
 	return cs
 }
 
@@ -729,15 +774,17 @@ func init() {
 		Level: "exploration",
 		Rule: "seeded ABCI histories of the real app: a simulated remote chain emits deposit / executed-batch events with consecutive nonces; one pigeon per validator reads its own cursor from the chain and votes for the next event (honest), late (lazy) or for an altered claim at the same nonce (byzantine: a greedy variant, or a variant that differs only in the letter case of an address), sometimes repeating or skipping nonces; users and validators move stake, validators get jailed and unjail, governance overrides the oracle cursor down / up / to the same value while votes are pending (after which pigeons re-vote, as real pigeons do). " +
 			"After every block the shadow oracle checks every attestation record (duplicate-free vote list), every attestation that took effect in the block (distinct voters' stored power*100 > 66*total, consecutive nonce, one per nonce per reset epoch, cursor advanced by exactly the number of effects) and the effects (supply and receiver balances change by exactly the observed claims). " +
+			"Histories 'redeploy-*' (a fifth of the cases) additionally REDEPLOY the bridge of a chain (a newer compass with a new unique id activated through EvmKeeper.ActivateChainReferenceID at a block boundary): right at the start, before anything was observed, while validators holding <= 66 % of the power have voted for the first events of the old deployment and the others' pigeons are down, and/or 1-3 times in mid-history with votes pending; afterwards the remote chain emits events of the new deployment from nonce 1 and lagging pigeons keep voting for events of the old deployment for a while (the event after their own cursor, or the first one that had not taken effect). Added oracle: no claim that names a superseded deployment of its chain takes effect after the redeployment; the redeployment flips no attestation and leaves the cursor at 0 (a redeployment starts a new reset epoch for one-claim-per-nonce). " +
 			"evaluations = oracle comparisons; distinct_nontrivial = distinct abstract oracle states (per chain: backlog, pending attestations, votes on them, reset epoch; total power)",
 		Assumptions: []string{
 			"stored validator powers read after a block equal the powers the end-of-block tally saw (staking's end-blocker runs before skyway's)",
 			"jailing by the workload uses valset.Jail (what Paloma's own liveness flow calls); stake moves and unjail are real txs",
-			"compass hand-over (new deployment id) resets are exercised through chain activation at bring-up only",
+			"a bridge redeployment is the call the attested deployment flow ends in (EvmKeeper.ActivateChainReferenceID with a contract newer than the active one and a new unique id), made at a block boundary; the new deployment's event nonces start at 1; re-activations with a contract that is not newer are not exercised here (C13 does)",
 		},
 		Cases:       cases,
 		Run:         run,
-		MinCounters: []string{"attestations_observed", "claims_accepted", "claims_accepted_altered", "deposits_applied", "overrides", "tallies_within_2pct_of_threshold", "observed_checked_against_own_vote_log"},
+		MinCounters: []string{"attestations_observed", "claims_accepted", "claims_accepted_altered", "deposits_applied", "overrides", "tallies_within_2pct_of_threshold", "observed_checked_against_own_vote_log",
+			"redeployments_at_cursor_zero_with_pending_votes", "redeployments_after_observed_nonces_with_pending_votes", "old_deployment_votes_accepted_after_redeployment", "observed_on_redeployed_bridge"},
 		TimeoutS:    1500,
 	})
 }
